@@ -210,6 +210,11 @@ K void k_store_field_a(uint64_t base, uint64_t p, long v) { S::g_base = base; au
 K void k_store_field_c(uint64_t base, uint64_t p, int v) { S::g_base = base; auto t = mk_tainted<VS24*, S>(p); t->c = v; }
 K uint64_t k_load_field_a(uint64_t base, uint64_t p) { S::g_base = base; auto t = mk_tainted<VS24*, S>(p); tainted<long, S> x = t->a; return (uint64_t)x.UNSAFE_unverified(); }
 K uint64_t k_load_field_c(uint64_t base, uint64_t p) { S::g_base = base; auto t = mk_tainted<VS24*, S>(p); return (uint64_t)t->c.UNSAFE_unverified(); }
+K void k_store_arr_long22(uint64_t base, uint64_t p, long a, long b, long c, long d) { S::g_base = base; auto t = mk_tainted<long(*)[2][2], S>(p);
+  tainted<long[2][2], S> v; v[0][0] = a; v[0][1] = b; v[1][0] = c; v[1][1] = d; *t = v; }
+K void k_load_arr_long22(uint64_t base, uint64_t p) { S::g_base = base; auto t = mk_tainted<long(*)[2][2], S>(p); tainted<long[2][2], S> v = *t;
+  env_log(1, (uint64_t)v[0][0].UNSAFE_unverified(), (uint64_t)v[0][1].UNSAFE_unverified(), 0);
+  env_log(2, (uint64_t)v[1][0].UNSAFE_unverified(), (uint64_t)v[1][1].UNSAFE_unverified(), 0); }
 K void k_store_ptrarr2(uint64_t base, uint64_t p, uint64_t a, uint64_t b) { S::g_base = base; auto t = mk_tainted<int*(*)[2], S>(p);
   (*t)[0] = mk_tainted<int*, S>(a); (*t)[1] = mk_tainted<int*, S>(b); }
 '''
@@ -244,6 +249,37 @@ def check_agg(ctx, k, log=32):
         ctx.only(paths, "ret", "abort")
         ctx.expect(paths, ret=1)
         ctx.validate(k, [[b0, b0 + size - 12, 1, 0xFFFFFFFF if w == 32 else (1 << 64) - 1, 3], [b0, b0 + 0x40, 7, 8, 9]], base=b0)
+    elif k == "k_store_arr_long22":
+        fit(16)
+        vs = [ctx.sym("v%d" % i, 64) for i in range(4)]
+        paths = ctx.run(k, [base, p] + vs)
+        fits = z3.And(*[z3.And(sext(v, 128) >= -(1 << 31), sext(v, 128) < (1 << 31)) for v in vs])
+        for q in paths:
+            if q.status == "ret":
+                ctx.require(q, z3.And(*[sext(decode(q.mem, p + BV(4 * i, 64), 4), 128) == sext(vs[i], 128) for i in range(4)]),
+                            "two-dimensional array elements stored row-major at guest stride")
+                ctx.require(q, unchanged(q, p, 16), "nothing outside the 16 guest bytes of the array changes")
+            elif q.status == "abort":
+                ctx.require(q, z3.Not(fits), "aborts only when an element does not fit")
+        ctx.only(paths, "ret", "abort")
+        ctx.expect(paths, ret=1)
+        ctx.validate(k, [[b0, b0 + size - 16, 1, 2, 3, 4]], base=b0)
+    elif k == "k_load_arr_long22":
+        fit(16)
+        paths = ctx.run(k, [base, p])
+        for q in paths:
+            if q.status == "ret":
+                l1 = [e for e in q.user["log"] if e[0] == 1][0]
+                l2 = [e for e in q.user["log"] if e[0] == 2][0]
+                got = [l1[1], l1[2], l2[1], l2[2]]
+                ctx.require(q, z3.And(*[got[i] == sext(decode(mem0, p + BV(4 * i, 64), 4), 64) for i in range(4)]),
+                            "two-dimensional array elements loaded row-major at guest stride")
+                ctx.require(q, footprint_ok(ctx, q, p, 16, LD), "reads stay inside the 16 guest bytes")
+                if [e for e in q.events if e[0] == "app-oob"]:
+                    ctx.fail(q, "application copy overrun")
+        ctx.only(paths, "ret")
+        ctx.expect(paths, ret=1)
+        ctx.validate(k, [[b0, b0 + size - 16]], mem={b0 + size - 16 + i: (0x91 + 7 * i) & 0xFF for i in range(16)}, base=b0)
     elif k == "k_load_arr_long3":
         fit(12)
         paths = ctx.run(k, [base, p])
@@ -323,13 +359,15 @@ using NS = rlbox_noop_sandbox;
 // sandbox-to-sandbox assignment of an array of pointers on a backend whose guest pointer type is a real pointer
 K void k_noop_copy_ptrarr(uint64_t dst, uint64_t src) { auto d = mk_tainted<int*(*)[3], NS>(dst); auto s = mk_tainted<int*(*)[3], NS>(src); *d = *s; }
 K void k_noop_copy_intarr(uint64_t dst, uint64_t src) { auto d = mk_tainted<long(*)[3], NS>(dst); auto s = mk_tainted<long(*)[3], NS>(src); *d = *s; }
+K void k_noop_copy_int43(uint64_t dst, uint64_t src) { auto s = mk_tainted<int(*)[4][3], NS>(src); tainted<int[4][3], NS> v = *s; std::memcpy((void*)dst, &v, sizeof(v)); static_assert(sizeof(v) == 48); }
 K void k_noop_store_ptrarr(uint64_t dst, uint64_t a, uint64_t b, uint64_t c) { auto d = mk_tainted<int*(*)[3], NS>(dst);
   tainted<int*[3], NS> t; uint64_t v[3] = { a, b, c }; std::memcpy(&t, v, 24); *d = t; }
 '''
 
 
 def check_noop(ctx, k):
-    dst = ctx.buffer(24, name="dst")
+    n = 48 if k == "k_noop_copy_int43" else 24
+    dst = ctx.buffer(n, name="dst")
     if k == "k_noop_store_ptrarr":
         vs = [ctx.sym("v%d" % i, 64) for i in range(3)]
         paths = ctx.run(k, [dst] + vs)
@@ -337,12 +375,12 @@ def check_noop(ctx, k):
         for v in vs:
             want += [z3.Extract(8 * j + 7, 8 * j, v) for j in range(8)]
     else:
-        src = ctx.buffer(24, name="src")
+        src = ctx.buffer(n, name="src")
         paths = ctx.run(k, [dst, src])
         want = src.init
     for q in paths:
         if q.status == "ret":
-            ctx.require(q, z3.And(*[ctx.eng.cbyte(q, dst.addr + i) == want[i] for i in range(24)]),
+            ctx.require(q, z3.And(*[ctx.eng.cbyte(q, dst.addr + i) == want[i] for i in range(n)]),
                         "every byte of every element of the array object is written with the source's encoding")
             oob = [e for e in q.events if e[0] == "app-oob"]
             if oob:
@@ -351,7 +389,7 @@ def check_noop(ctx, k):
     ctx.expect(paths, ret=1)
 
 
-AGG = ["k_store_arr_int3", "k_store_arr_long3", "k_load_arr_long3", "k_store_elem_long", "k_store_field_a", "k_store_field_c",
+AGG = ["k_store_arr_int3", "k_store_arr_long3", "k_store_arr_long22", "k_load_arr_long22", "k_load_arr_long3", "k_store_elem_long", "k_store_field_a", "k_store_field_c",
        "k_load_field_a", "k_load_field_c", "k_store_ptrarr2"]
 
 
@@ -373,6 +411,6 @@ def jobs(tier, seed):
                     chks.append(dict(name="%s range %s" % (sbx, t.tag), fn=check_range, kw=dict(t=t, log=log, nmax=4 if tier == "thorough" else 3)))
             out.append(Job("C07_%s_%d" % (sbx, gi), "\n".join(src) + "\n", chks))
     out.append(Job("C07_noop", NOOP_SRC, [dict(name="noop " + k, fn=check_noop, kw=dict(k=k))
-                                          for k in ("k_noop_copy_ptrarr", "k_noop_copy_intarr", "k_noop_store_ptrarr")]))
+                                          for k in ("k_noop_copy_ptrarr", "k_noop_copy_intarr", "k_noop_store_ptrarr", "k_noop_copy_int43")]))
     out.append(Job("C07_agg", C.PRELUDE + "using S = B32;\n" + AGG_SRC, [dict(name="B32 " + k, fn=check_agg, kw=dict(k=k)) for k in AGG]))
     return out
